@@ -602,10 +602,30 @@ func TestManagerRapid(t *testing.T) {
 					}
 				}()
 			}
+			// a second watcher follows a drawn subset of the services directly
+			fw2 := services.NewFailureWatcher()
+			watched := map[int]bool{}
+			for i := range svcs {
+				if rapid.Bool().Draw(rt, "watchedDirectly") {
+					watched[i] = true
+					fw2.WatchService(svcs[i])
+				}
+			}
+			var fw2Errs []error
+			fw2Done := make(chan struct{})
+			go func() {
+				defer close(fw2Done)
+				for e := range fw2.Chan() {
+					fwMu.Lock()
+					fw2Errs = append(fw2Errs, e)
+					fwMu.Unlock()
+				}
+			}()
 			var recs []*mgrRec
 			var mws []*waiter
 			everAllRunning := false
 			b.Cleanup(func() {
+				defer func() { settle(); fw2.Close(); <-fw2Done }()
 				for _, w := range mws {
 					w.cancel()
 				}
@@ -767,6 +787,29 @@ func TestManagerRapid(t *testing.T) {
 				if nfw != len(failedSvcs) {
 					fail("batch %d: failure watcher delivered %d failures, %d services failed", bi, nfw, len(failedSvcs))
 				}
+				vx.Wait()
+				fwMu.Lock()
+				wantDirect := 0
+				for _, fi := range failedSvcs {
+					if watched[fi] {
+						wantDirect++
+					}
+				}
+				for _, e := range fw2Errs {
+					ok := false
+					for _, fi := range failedSvcs {
+						if watched[fi] && errors.Is(e, errByName[ms[fi].failure]) {
+							ok = true
+						}
+					}
+					if !ok {
+						fail("batch %d: the watcher of services %v reported %v, which is no watched failed service's cause", bi, watched, e)
+					}
+				}
+				if len(fw2Errs) != wantDirect {
+					fail("batch %d: the watcher of services %v delivered %d failures, %d watched services failed", bi, watched, len(fw2Errs), wantDirect)
+				}
+				fwMu.Unlock()
 				for ri, r := range recs {
 					r.mu.Lock()
 					h, s, f, ov := r.healthy, r.stopped, append([]services.Service{}, r.failed...), r.overlap
